@@ -867,6 +867,7 @@ def gen_session(rng, prop, tier):
     gen = gen_docs.DocGen(
         rng, sets=rng.random() < 0.2, anchors=rng.random() < 0.65,
         nonascii=rng.random() < 0.1, mergekeys=merges, twins=0.18,
+        special=rng.random() < 0.15,
         max_nodes=rng.choice([4, 8, 14, 22, 30]),
         max_depth=rng.choice([2, 3, 4]))
     doc = gen.document()
